@@ -174,7 +174,11 @@ public:
   void remove_logger(LoggerBase* logger)
   {
     logger->mark_invalid();
-    _has_invalidated_loggers.store(true, std::memory_order_release);
+
+    // Every write to this flag is a read-modify-write, a plain store would end the release sequence
+    // of a thread that invalidated another logger just before: the backend reading this value
+    // would not be guaranteed to also see that other logger as invalid
+    _has_invalidated_loggers.exchange(true, std::memory_order_acq_rel);
   }
 
   /***/
@@ -183,10 +187,12 @@ public:
   {
     std::vector<std::string> removed_loggers;
 
-    if (_has_invalidated_loggers.load(std::memory_order_acquire))
+    // Read and reset the flag in one atomic step. With a separate load and store(false) the store can
+    // overwrite the flag raised by a thread that invalidated another logger in between, while the
+    // scan below is not guaranteed to see that logger as invalid yet: its removal would be lost
+    if (_has_invalidated_loggers.load(std::memory_order_relaxed) &&
+        _has_invalidated_loggers.exchange(false, std::memory_order_acq_rel))
     {
-      _has_invalidated_loggers.store(false, std::memory_order_release);
-
       LockGuard const lock{_spinlock};
       for (auto it = _loggers.begin(); it != _loggers.end();)
       {
@@ -197,7 +203,7 @@ public:
           {
             // we have pending records in the queue, we can not remove the logger yet
             ++it;
-            _has_invalidated_loggers.store(true, std::memory_order_release);
+            _has_invalidated_loggers.exchange(true, std::memory_order_acq_rel);
           }
           else
           {
